@@ -1,17 +1,20 @@
 ----------------------------- MODULE MC_Woehler -----------------------------
 EXTENDS Woehler, TLC
-CONSTANTS K1s, As, Bs, TSs, TNs, XSpan
+CONSTANTS K1s, As, Bs, TSs, TNs, XSpan,
+          Ps      \* failure probability indices: index i stands for Phi((i - 2) z_0.9): 1, 2, 3 = 10 %, 50 %, 90 %; -2 = 1.5e-7, 6 = 1 - 1.5e-7
+PsQuick == {-2, 1, 2, 3}
+PsThorough == {-2, 1, 2, 3, 6}
 VARIABLES c, pg, x, out
 vars == <<c, pg, x, out>>
 K2s(k1) == {k1, 2 * k1 - KDen, k1 + 2 * KDen, Inf}
 Curves == {[k1 |-> k1, k2 |-> k2, a |-> a, b |-> b, ts |-> ts, tn |-> tn, p |-> p] :
-             k1 \in K1s, k2 \in UNION {K2s(k) : k \in K1s}, a \in As, b \in Bs, ts \in TSs, tn \in TNs, p \in 1..3}
+             k1 \in K1s, k2 \in UNION {K2s(k) : k \in K1s}, a \in As, b \in Bs, ts \in TSs, tn \in TNs, p \in Ps}
 Out(cc, g, xx) ==
   LET w == Transform(cc, g)  n == Cycles(cc, xx, g)
   IN [sd |-> w.a, nd |-> w.b, cycles |-> n,
       load_back |-> IF n = Inf THEN Inf ELSE Load(cc, n, g),
       load_beyond |-> Load(cc, w.b + 1260, g)]              \* far beyond the knee (60 is divisible by every k)
-Init == /\ c \in {cc \in Curves : cc.k2 \in K2s(cc.k1)} /\ pg \in 1..3
+Init == /\ c \in {cc \in Curves : cc.k2 \in K2s(cc.k1)} /\ pg \in Ps
         /\ x \in {Transform(c, pg).a + KDen * i : i \in (-XSpan)..XSpan}
         /\ out = Out(c, pg, x)
 Next == UNCHANGED vars
@@ -28,10 +31,10 @@ MinerOnlyChangesK2 ==
   /\ MinerOriginal(c) = [c EXCEPT !.k2 = Inf] /\ Cycles(MinerOriginal(c), x, pg) = (IF x < w.a THEN Inf ELSE out.cycles)
   /\ Cycles(MinerElementary(c), x, pg) = w.b - (c.k1 * (x - w.a)) \div KDen
   /\ Cycles(MinerHaibach(c), x, pg) = (IF x < w.a THEN w.b - ((2 * c.k1 - KDen) * (x - w.a)) \div KDen ELSE out.cycles)
-GrowsWithProbability == \A g \in 1..2 : LET n1 == Cycles(c, x, g)  n2 == Cycles(c, x, g + 1) IN (n1 # Inf /\ n2 # Inf) => n1 <= n2
+GrowsWithProbability == \A g1, g2 \in Ps : g1 < g2 => LET n1 == Cycles(c, x, g1)  n2 == Cycles(c, x, g2) IN (n1 # Inf /\ n2 # Inf) => n1 <= n2
 ScatterRatios ==
   /\ Transform(c, 3).a - Transform(c, 1).a = 2 * c.ts                      \* SD_90 / SD_10 = TS
   /\ LET xx == Transform(c, 3).a IN Cycles(c, xx, 3) - Cycles(c, xx, 1) = 2 * c.tn   \* N_90 / N_10 = TN (finite-life branch of both)
-GroupLaw == \A q \in 1..3 : Transform(Transform(c, q), pg) = Transform(c, pg)
+GroupLaw == \A q \in Ps : Transform(Transform(c, q), pg) = Transform(c, pg)
 Identity == Transform(c, c.p) = c
 =============================================================================
